@@ -676,6 +676,11 @@ fn company(ctx: &mut Ctx) {
                     Ok(rq) => rq,
                     Err(_) => continue,
                 };
+                // (an instantiated body can itself be a URL with an arbitrary scheme; the engine
+                // never matches unsupported schemes, the per-rule matcher does not look at them)
+                if !rq.is_supported {
+                    continue;
+                }
                 let lower = rq.url.to_ascii_lowercase();
                 let req_host = rq.hostname.clone();
                 if !lower[lower.find("://").map(|i| i + 3).unwrap_or(0)..].starts_with(&req_host) {
